@@ -12,6 +12,12 @@ def handle (ts : List String) : Option String :=
       let n ← size.toNat?
       some (some { bytes := (List.range n).map (· % 251), tag := 1 }))
     let c : Option Nat ← (match cond with | "none" => some none | "cur" => some (some 1) | "old" => some (some 2) | _ => none)
+    let showOut : Outcome → String := fun out => match out with
+      | .ok d => s!"ok {off} {off + d.length}"
+      | .refresh => "refresh"
+      | .err => "err"
+    -- the read's connection is dropped once: reported as a transport failure, or retried with the same condition
+    if kind == "httpflaky" then some ("err || " ++ showOut (readHttp true o off len c)) else
     let out := match kind with
       | "mem" => readMem o off len c
       | "file" => readFile o off len c
@@ -22,6 +28,7 @@ def handle (ts : List String) : Option String :=
     | .ok d => some s!"ok {off} {off + d.length}"
     | .refresh => some "refresh"
     | .err => some "err"
+  | "filerace" :: _ => some "consistent"   -- stress of the real backend; the model has no interleavings to offer
   | "retag" :: _ => some "changed"     -- assumption of C18 (tag changes on replacement), observed by the tie
   | _ => none
 
